@@ -403,12 +403,21 @@ def autotool(selector, undo=False):
     if undo:
         rval = rval.wrap_functions(_untooler)
     else:
-        rval = rval.wrap_functions(_tooler)
+        tooled_so_far = []
+
+        def tool(fn, captures):
+            fn = _tooler(fn, captures)
+            tooled_so_far.append((fn, captures))
+            return fn
+
         try:
+            rval = rval.wrap_functions(tool)
             verify(rval)
         except Exception:
-            # The selector is refused: undo the tooling we just installed
-            rval.wrap_functions(_untooler)
+            # The selector is refused, or one of its functions cannot be
+            # tooled: undo the tooling installed so far
+            for fn, captures in tooled_so_far:
+                _untooler(fn, captures)
             raise
     return rval
 
